@@ -63,6 +63,7 @@ def classes : List Cls := [
   c "IPSecESP" .be 8 [],
   c "DNS" .be 12 [],
   c "BootP" .be 236 [],
+  c "DHCPv6" .be 4 [],
   c "Dot11" .le 10 [],
   c "Dot11Data" .le 24 [],
   c "Dot11Beacon" .le 24 [],
@@ -224,6 +225,10 @@ def rows : List Row := [
   r "BootP" "yiaddr" .be 128 32 .bytes .rw,
   r "BootP" "siaddr" .be 160 32 .bytes .rw,
   r "BootP" "giaddr" .be 192 32 .bytes .rw,
+  -- RFC 8415 §8 client/server message header (msg-type, transaction-id); §9 relay header starts msg-type, hop-count
+  r "DHCPv6" "msg_type" .be 0 8 .num .rw,
+  r "DHCPv6" "hop_count" .be 8 8 .num .rw,
+  r "DHCPv6" "transaction_id" .be 8 24 .num .rw,
   -- IEEE 802.11-2016 §9.2.4.1 frame control (B0..B15), duration/ID, address 1
   r "Dot11" "protocol" .le 0 2 .num .rw,
   r "Dot11" "type" .le 2 2 .num .rw,
